@@ -130,10 +130,12 @@ func freshBase(v ssa.Value) bool {
 }
 
 func memName(srt *sorter, elem types.Type) string {
-	if isAggregate(elem) {
-		return "Mem$" + typeName(elem)
+	elem = types.Unalias(elem)
+	if b, ok := elem.(*types.Basic); ok {
+		// byte and uint8 (rune and int32) are the same type but distinct *types.Basic objects
+		return "Mem$" + types.Typ[b.Kind()].Name()
 	}
-	return "Mem$" + sortTag(srt.sortOf(elem))
+	return "Mem$" + typeName(elem)
 }
 
 // staticPath mirrors fieldOf: root is re-set when crossing a named aggregate held by value.
@@ -408,6 +410,14 @@ func (p *Prog) directCallEffects(srt *sorter, fn *ssa.Function, in ssa.CallInstr
 		switch b.Name() {
 		case "append", "copy":
 			if st, ok := c.Args[0].Type().Underlying().(*types.Slice); ok {
+				if b.Name() == "copy" && freshBase(c.Args[0]) {
+					break // copying into memory allocated by this very function
+				}
+				if b.Name() == "append" {
+					if k, ok := c.Args[0].(*ssa.Const); ok && k.Value == nil {
+						break // append to nil always allocates
+					}
+				}
 				ms.add(memName(srt, st.Elem()))
 			}
 		case "delete", "clear":
